@@ -80,7 +80,12 @@ struct Tables {
 }
 impl Coll for Tables {
     fn add(&mut self, v: u32) -> (usize, bool) {
-        issue!(self, self.m.tables.add_local(false, v as u64, None, RefType::Funcref))
+        // odd values arrive as imports (created among the local ones: creation order is still the order of iteration)
+        if v % 2 == 1 {
+            issue!(self, self.m.add_import_table("wv", &format!("t{}", self.ids.len()), false, v as u64, None, RefType::Funcref).0)
+        } else {
+            issue!(self, self.m.tables.add_local(false, v as u64, None, RefType::Funcref))
+        }
     }
     fn del(&mut self, k: usize) { self.m.tables.delete(self.ids[k]); }
     fn get(&self, k: usize) -> Option<String> {
@@ -99,7 +104,11 @@ struct Memories {
 }
 impl Coll for Memories {
     fn add(&mut self, v: u32) -> (usize, bool) {
-        issue!(self, self.m.memories.add_local(false, false, v as u64, None, None))
+        if v % 2 == 1 {
+            issue!(self, self.m.add_import_memory("wv", &format!("m{}", self.ids.len()), false, false, v as u64, None, None).0)
+        } else {
+            issue!(self, self.m.memories.add_local(false, false, v as u64, None, None))
+        }
     }
     fn del(&mut self, k: usize) { self.m.memories.delete(self.ids[k]); }
     fn get(&self, k: usize) -> Option<String> {
